@@ -172,7 +172,30 @@ def _shuffled_dict(rng, d):
     return dict(items)
 
 
-def program(rng, *, n_state=(1, 5), n_control=(0, 3), n_calib=(0, 3), n_sensor=(0, 3),
+def program(rng, **kw):
+    """Random model + sensor definition (see _program).  Definitions whose exp(-a**2) terms overflow
+    *everywhere* near the origin (e.g. exp(-((c + 9.81)**2)**2)) are re-drawn: point() could not keep the
+    non-probe workloads out of the region of the known finding cse-simplify:exp-overflow for them."""
+    for _ in range(25):
+        d = _program(rng, **kw)
+        trial = random.Random(rng.getrandbits(32))
+        ok = False
+        for sc in (1.0, 0.3, 0.05):
+            for _t in range(4):
+                env = {d["dt"]: 0.1}
+                env.update({n: trial.gauss(0, 1) * sc for n in d["state"] + d["control"]})
+                env.update(d["calibration_map"])
+                if max_exp_argument(d, env) <= EXP_ARG_LIMIT:
+                    ok = True
+                    break
+            if ok:
+                break
+        if ok:
+            return d
+    return d
+
+
+def _program(rng, *, n_state=(1, 5), n_control=(0, 3), n_calib=(0, 3), n_sensor=(0, 3),
             n_reading=(1, 4), depth=3, cpp_safe=True, allow_text=True, n_shared=(1, 3),
             integrator_bias=0.5, dt_names=("dt",), sensor_calib=True, containers=True, wraps=False,
             calib_containers=("set", "set", "frozenset", "list", "tuple")):
